@@ -2,6 +2,7 @@
 // Shape = configuration (VP_D directions, sizes VP_S0..2 in top cells, periodic flags VP_P0..2, VP_VERT = built from vertex values).
 // Symbolic: the cell index, a second cell, and every input value. Oracle: independent mixed-radix geometry.
 #include "vp.h"
+#include <limits>
 #include <gudhi/Bitmap_cubical_complex.h>
 #include <gudhi/Bitmap_cubical_complex_base.h>
 #include <gudhi/Bitmap_cubical_complex_periodic_boundary_conditions_base.h>
@@ -53,7 +54,11 @@ extern "C" void harness() {
   int nin = 1; for (int i = 0; i < VP_D; i++) nin *= (VP_VERT ? S[i] + (PER[i] ? 0 : 1) : S[i]);
   std::vector<T> in;
 #ifdef VP_SYMVALS
+#ifdef VP_INFTOP   /* the largest grid value stands for +infinity (cells that never appear): ties between infinite values */
+  for (int i = 0; i < nin; i++) { int vi = vp_int("v", 0, VP_VMAX); in.push_back(vi == VP_VMAX ? std::numeric_limits<T>::infinity() : (T)vi); }
+#else
   for (int i = 0; i < nin; i++) in.push_back((T)vp_int("v", 0, VP_VMAX));
+#endif
 #else
   for (int i = 0; i < nin; i++) in.push_back((T)((i * 7 + 3) % 5));   // concrete values with ties: the geometry clauses do not depend on them
 #endif
